@@ -62,6 +62,7 @@ type c06 struct {
 	// competing fork
 	b2      *chainkit.Builder
 	b2up    bool // B2's miner has been started
+	b2dead  bool // B2 died inside a stimulus (Crit or panic)
 	forkOn  bool
 	forkLen int
 	held    []*blockRef // main blocks built while the fork is canonical on the fork nodes
@@ -122,13 +123,18 @@ func (o *c06) stop() {
 			nd.im.Stop(kit.Wait)
 		}
 	}
-	if o.b2 != nil {
+	if o.b2 != nil && !o.b2dead {
 		o.b2.Stop(kit.Wait)
 	}
 }
 
 func (o *c06) kill(nd *impNode) {
 	nd.out = true
+	if nd.pol == polForkBuilder && !o.b2dead {
+		o.b2dead = true
+		b2 := o.b2
+		o.s.deadStops = append(o.s.deadStops, func() { b2.Stop(func() {}) })
+	}
 	if nd.im != nil {
 		im := nd.im
 		o.s.deadStops = append(o.s.deadStops, func() { im.Stop(func() {}) })
@@ -305,6 +311,9 @@ func (o *c06) repeat(img *simdisk.Disk, rf *blockRef, first outcome) {
 func (o *c06) onBuilt(n int, rf *blockRef) {
 	s, r := o.s, o.s.r
 	o.refs = append(o.refs, rf)
+	if rf.tainted != "" {
+		return // reported by taintCheck; what importers make of it depends on map order
+	}
 	periodEnd := (uint64(n)+1)%s.sc.F == 0
 	for _, nd := range o.nodes {
 		if nd.out {
@@ -392,8 +401,8 @@ func (o *c06) beforeBuild(n int) {
 	if o.b2.Chain.CurrentBlock().Hash() != s.b.Chain.CurrentBlock().Hash() {
 		return
 	}
-	o.forkLen = 1 + s.c.Intn("fork-length", 3)
-	o.solo = s.c.Chance("deliver-first-main-block-alone", 1, 2)
+	o.forkLen = 1 + s.c.Weighted("fork-length", []int{3, 1, 1})
+	o.solo = s.c.Chance("deliver-first-main-block-alone", 2, 3)
 	o.nForks++
 	r.Logf("  fork of length %d starts at height %d", o.forkLen, n)
 	// the second builder's own transactions (and possibly an evidence), generated against ITS head and pool
@@ -498,6 +507,7 @@ func (o *c06) atEnd() {
 func runC06(r *kit.Run) {
 	runSim(r, func(s *sim) {
 		o := &c06{s: s}
+		s.reportTaint = true
 		o.start()
 		defer o.stop()
 		s.runHistory(hooks{bias: 0, blocks: historyLen(r, 20, 45), beforeBuild: o.beforeBuild, onBuilt: o.onBuilt, atEnd: o.atEnd})
